@@ -454,6 +454,40 @@ theorem eqStar_allows (V v : Version) (hV : V.isFinal = true) (hVwf : V.wf = tru
 
 /-! ### `~=V` -/
 
+/-- facts about the upper end of `~=V` shared by the lemmas below -/
+theorem compat_facts (V : Version) (hVwf : V.wf = true) (hp : 2 ≤ V.precision) :
+    (compatHigh V).isFinal = true ∧ vk V < vk (compatHigh V) ∧ (compatHigh V).wf = true ∧
+    relKey V ≠ relKey (compatHigh V) ∧
+    vk (nextPrefixDev0 V.epoch V.release.dropLast) = vk (compatHigh V).firstDevrelease ∧
+    (nextPrefixDev0 V.epoch V.release.dropLast).wf = true ∧ ¬ V.release.length < 2 := by
+  obtain ⟨h1, h2, h3⟩ := compatHigh_release V hp
+  have hfin : (compatHigh V).isFinal = true := by rw [h3]; rfl
+  have hne := wf_release_ne hVwf
+  have hlt' : compare (stripZeros V.release) (stripZeros (compatHigh V).release) = .lt := by
+    rw [h1, stripZeros_append_zero]; exact incrLast_dropLast_gt _ hp
+  have hlt : vk V < vk (compatHigh V) := (vk_lt_iff _ _).2 (cmp_lt_of_rel_lt h2.symm hlt')
+  have hHwf : (compatHigh V).wf = true := by rw [h3]; exact wf_final _ _ (by rw [h1]; simp)
+  have hdl : V.release.dropLast ≠ [] := by
+    unfold precision at hp
+    cases hr : V.release with
+    | nil => rw [hr] at hp; simp at hp
+    | cons a as =>
+      cases as with
+      | nil => rw [hr] at hp; simp at hp
+      | cons b bs => simp
+  have k2 : vk (nextPrefixDev0 V.epoch V.release.dropLast) = vk (compatHigh V).firstDevrelease := by
+    rw [vk_eq_iff_key]
+    obtain ⟨f1, f2, _, _⟩ := final_parts hfin
+    simp [nextPrefixDev0, mkV, firstDevrelease, mk', key, preK, postK, devK, dev0, f1, f2, h1, h2,
+      bumpLast_eq_incrLast, stripZeros_append_zero]
+  have w2 : (nextPrefixDev0 V.epoch V.release.dropLast).wf = true :=
+    wf_mkV_nolocal (by
+      rw [bumpLast_eq_incrLast]
+      cases hr : V.release.dropLast with
+      | nil => exact absurd hr hdl
+      | cons a as => cases as <;> simp [incrLast]) (by simp [optAll]) (by simp [optAll]) (by simp [dev0, optAll])
+  exact ⟨hfin, hlt, hHwf, relKey_ne_of_rel_lt hlt', k2, w2, by unfold precision at hp; omega⟩
+
 theorem compat_allows (V v : Version) (hVwf : V.wf = true) (hp : 2 ≤ V.precision) (hv : v.wf = true)
     (hreg : Reg1 v V) :
     (⟨some V, some (compatHigh V), true, false⟩ : VRange).allows v = containsCompat V v := by
@@ -544,5 +578,117 @@ theorem memberOf_spec (op : SOp) (V : Version) (m : RC) (h : memberOf op V = som
     refine ⟨by intro e he; simp [VRange.bounds] at he; subst he; exact h, ?_⟩
     intro m M hm hM; simp at hm hM
 
+
+/-! ### `!=V.*` -/
+
+theorem incrLast_gt : ∀ r : List Nat, r ≠ [] → compare (stripZeros r) (stripZeros (incrLast r)) = .lt
+  | [], h => absurd rfl h
+  | [x], _ => by
+    show compare (stripZeros (x :: [])) (stripZeros ((x + 1) :: [])) = .lt
+    exact sz_cmp_lt_head (by omega) _ _
+  | x :: y :: rest, _ => by
+    have ih := incrLast_gt (y :: rest) (by simp)
+    show compare (stripZeros (x :: y :: rest)) (stripZeros (x :: incrLast (y :: rest))) = .lt
+    rw [sz_cmp_cons]; exact ih
+
+/-- the two ends of the wildcard range of a final `V` -/
+theorem wildcard_ends_lt (V : Version) (hV : V.isFinal = true) (hVwf : V.wf = true) :
+    vk V.firstDevrelease < vk V.nextStable.firstDevrelease := by
+  obtain ⟨h1, h2, h3, h4⟩ := final_parts hV
+  have hs : V.isStable = true := by simp [isStable, isUnstable, isPrerelease, isDevrelease, h1, h3]
+  have hne := wf_release_ne hVwf
+  rw [vk_lt_iff]
+  apply cmp_lt_of_rel_lt
+  · simp [firstDevrelease, nextStable, mk']
+  · have : V.nextStable.firstDevrelease.release = incrLast V.release := by
+      simp [firstDevrelease, nextStable, hs, mk', relNext_eq_incrLast _ hne]
+    rw [this]
+    exact incrLast_gt _ hne
+
+/-- for a final `V`, `!=V.*` is the union `<V.dev0 || >=N.dev0` -/
+theorem neStar_range (V : Version) (hV : V.isFinal = true) (hVwf : V.wf = true) :
+    VParser.makeXConstraintRange V true false =
+      .ok (.union [.rng ⟨none, some V.firstDevrelease, false, false⟩,
+                   .rng ⟨some V.nextStable.firstDevrelease, none, true, false⟩]) := by
+  obtain ⟨h1, h2, h3, h4⟩ := final_parts hV
+  have hs : V.isStable = true := by simp [isStable, isUnstable, isPrerelease, isDevrelease, h1, h3]
+  have hlt := wildcard_ends_lt V hV hVwf
+  generalize hD : V.firstDevrelease = D at *
+  generalize hE : V.nextStable.firstDevrelease = E at *
+  have hDu : D.isUnstable = true := by rw [← hD]; simp [isUnstable, isDevrelease, firstDevrelease, mk']
+  have hEu : E.isUnstable = true := by rw [← hE]; simp [isUnstable, isDevrelease, firstDevrelease, mk']
+  have l1 : Version.lt D E = true := (lt_iff _ _).2 hlt
+  have l2 : Version.gt D E = false := (gt_false_iff _ _).2 (le_of_lt hlt)
+  have l3 : Version.eqv D E = false := (eqv_false_iff _ _).2 (ne_of_lt hlt)
+  have l4 : Version.gt E D = true := (gt_iff _ _).2 hlt
+  have l5 : Version.lt E D = false := (lt_false_iff _ _).2 (le_of_lt hlt)
+  have hx : VParser.makeXConstraintRange V true false =
+      VC.difference VC.any (.single (.rng ⟨some D, some E, true, false⟩)) := by
+    rw [← hD, ← hE]
+    simp [VParser.makeXConstraintRange, isPostrelease, h2, h3, hs, nextStable, isDevrelease, mk']
+  rw [hx]
+  simp [VC.difference, VC.any, RC.difference, RC.rngDifferenceRng, RC.allowsAny, VRange.isStrictlyLower,
+    VRange.isStrictlyHigher, VRange.any, VRange.allowedMax, VRange.allowedMin, VRange.allowsLower,
+    VRange.allowsHigher, optVerEq, hDu, hEu, l1, l2, l3, l4, l5, bind, Except.bind, pure, Except.pure,
+    unionOfFlat, RC.isAny, VRange.isAny, sortRCs, insertSorted, RC.lt, VRange.cmp, mergeLoop, RC.view,
+    VRange.isAdjacentTo, RC.min, RC.max, RC.imin, RC.imax]
+
+/-- the complement of `<D || >=E` (D < E) is computed back to the range `[D, E)` -/
+theorem inverted_two_sided (D E : Version) (hlt : vk D < vk E) :
+    VC.inverted [.rng ⟨none, some D, false, false⟩, .rng ⟨some E, none, true, false⟩] =
+      .ok (.single (.rng ⟨some D, some E, true, false⟩)) := by
+  have l1 : Version.lt D E = true := (lt_iff _ _).2 hlt
+  have l2 : Version.gt D E = false := (gt_false_iff _ _).2 (le_of_lt hlt)
+  have l3 : Version.eqv D E = false := (eqv_false_iff _ _).2 (ne_of_lt hlt)
+  have hA : ∃ M', (⟨none, some D, false, false⟩ : VRange).allowedMax = some M' := by
+    have := VRange.allowedMax_isSome (r := ⟨none, some D, false, false⟩)
+    cases h : (⟨none, some D, false, false⟩ : VRange).allowedMax with
+    | none => simp [h] at this
+    | some M' => exact ⟨M', rfl⟩
+  obtain ⟨M', hM'⟩ := hA
+  simp [VC.inverted, VC.rngDiffUnionLoop, RC.view, RC.min, RC.max, RC.imin, RC.imax,
+    VRange.isStrictlyLower, VRange.isStrictlyHigher, VRange.any, RC.difference, RC.rngDifferenceRng,
+    RC.allowsAny, VRange.allowsLower, VRange.allowsHigher, VRange.allowedMin, optVerEq, VC.rngDiffFinish,
+    bind, Except.bind, pure, Except.pure, l1, l2, l3, hM', VRange.allowedMax_none]
+
+/-- **`!=V.*` for a final `V` on every candidate**: the real `VersionUnion.allows` of what the parser builds
+equals the reference -/
+theorem neStar_allows (V v : Version) (hV : V.isFinal = true) (hVwf : V.wf = true) (hv : v.wf = true) :
+    VC.allows (.union [.rng ⟨none, some V.firstDevrelease, false, false⟩,
+                       .rng ⟨some V.nextStable.firstDevrelease, none, true, false⟩]) v =
+      .ok (containsNeStar V v) := by
+  have hlt := wildcard_ends_lt V hV hVwf
+  have hN := (eqStar_range V hV).2
+  obtain ⟨h1, h2, h3, h4⟩ := final_parts hV
+  have hs : V.isStable = true := by simp [isStable, isUnstable, isPrerelease, isDevrelease, h1, h3]
+  have hne := wf_release_ne hVwf
+  have hNwf : V.nextStable.wf = true := by
+    have : V.nextStable = mk' V.epoch (incrLast V.release) none none none none := by
+      simp [nextStable, hs, h4, relNext_eq_incrLast _ hne]
+    rw [this]
+    exact wf_final _ _ (by
+      cases hr : V.release with
+      | nil => exact absurd hr hne
+      | cons a as => cases as <;> simp [incrLast])
+  simp only [VC.allows, VC.excludedSingleVersion, inverted_two_sided _ _ hlt, bind, Except.bind, pure, Except.pure]
+  congr 1
+  -- the reference: `!=V.*` is the negation of `==V.*`
+  have hspec : containsNeStar V v = !containsEqStar V v := by
+    simp only [containsNeStar, containsEqStar, vGt, vLe]
+    cases cmpRef (baseDev0 V) v <;> cases cmpRef (nextPrefixDev0 V.epoch V.release) v <;> rfl
+  rw [hspec, ← eqStar_allows V v hV hVwf hv]
+  -- the model: each half is the negation of one half of the wildcard range
+  have e1 := allowsHi_firstDev ⟨none, some V.firstDevrelease, false, false⟩ V hV hVwf rfl rfl v hv
+  have e2 := allowsLo_firstDev ⟨some V.nextStable.firstDevrelease, none, true, false⟩ V.nextStable hN hNwf rfl rfl v hv
+  have e3 := allowsLo_firstDev ⟨some V.firstDevrelease, some V.nextStable.firstDevrelease, true, false⟩ V hV hVwf rfl rfl v hv
+  have e4 := allowsHi_firstDev ⟨some V.firstDevrelease, some V.nextStable.firstDevrelease, true, false⟩
+    V.nextStable hN hNwf rfl rfl v hv
+  apply bool_eq_of_iff
+  simp only [List.any_cons, List.any_nil, Bool.or_false, Bool.or_eq_true, RC.allows, VRange.allows,
+    Bool.and_eq_true, Bool.not_eq_true', Bool.and_eq_false_iff]
+  have t1 : (⟨none, some V.firstDevrelease, false, false⟩ : VRange).allowsLo v = true := rfl
+  have t2 : (⟨some V.nextStable.firstDevrelease, none, true, false⟩ : VRange).allowsHi v = true := rfl
+  rw [t1, t2, e1, e2]
+  simp only [true_and, and_true, ← Bool.not_eq_true, e3, e4, not_le, not_lt]
 
 end Poetry
